@@ -158,6 +158,7 @@ def plan_for(prop, tier, seed):
             ("oob-streams", True, "dev", lambda ids, rng: G.f_oob_streams(ids, rng, G.tiny_model_list(small, rng, 4 if q else 30), ifaces=("rec", "p8"))),
             ("long", True, "dev", lambda ids, rng: G.f_long_streams(ids, rng, 80 if q else 1500, ifaces=("rec", "spi"))),
             ("oob-rects", True, "dev", lambda ids, rng: G.f_oob_rects(ids, rng, G.tiny_model_list(small, rng, 3 if q else 30), ifaces=("rec",))),
+            ("sequences", True, "dev", lambda ids, rng: G.f_small_alphabet(ids, rng, 300 if q else 5000, ifaces=("p8", "spi", "p16", "rec"))),
         ]
     elif prop == "C10":
         p.mc = [(MCP, "MC_Placement_re_q" if q else "MC_Placement_d2_t", 12, 3000, None)]
@@ -170,6 +171,8 @@ def plan_for(prop, tier, seed):
             ("reorient-xport", True, "dev", lambda ids, rng: G.f_reorient(ids, rng, G.tiny_model_list([(2, 3), (4, 3)], rng, 3 if q else 20), ifaces=("spi", "p8", "p16"), sample=0.5 if q else 1.0)),
             ("reorient-real", True, "dev", lambda ids, rng: G.f_reorient(ids, rng, G.real_model_list(rng, None, n_windows=1 if q else 2, full=not q, maxside=12), ifaces=("rec",), sample=0.4 if q else 1.0)),
             ("reorient-nobatch", False, "dev", lambda ids, rng: G.f_reorient(ids, rng, G.tiny_model_list([(2, 3), (4, 3)], rng, 3 if q else 20), ifaces=("rec",))),
+            # an external model that programs (and returns) its own colour order: the bits it set must survive set_orientation
+            ("reorient-own-madctl", True, "dev", lambda ids, rng: G.f_reorient(ids, rng, [("tinybgr565_4x3", 4, 3, rng.sample(list(G.windows(4, 3)), 4 if q else 30))], ifaces=("rec", "spi"))),
         ]
     elif prop == "C20":
         p.mc = [("MC_Spi", "MC_Spi", 8, 900, None), (MCP, "MC_Batch_q" if q else "MC_Batch_t", 12, 3000, None)]
@@ -179,6 +182,7 @@ def plan_for(prop, tier, seed):
         p.families = [
             ("overhead", True, "dev", lambda ids, rng: [G.measure_rowcap(ids)] + G.f_long_streams(ids, rng, 150 if q else 3000, ifaces=("rec", "spi")) ),
             ("overhead-sequences", True, "dev", lambda ids, rng: G.f_small_alphabet(ids, rng, 400 if q else 6000, ifaces=("spi",))),
+            ("overhead-spi-grid", True, "dev", lambda ids, rng: G.f_spi_grid(ids, rng, sample=0.5 if q else 1.0, big=4 if q else 60)),
             ("overhead-fills", True, "dev", lambda ids, rng: G.f_tiny_placement(ids, rng, ifaces=("rec", "spi"), sample=0.05 if q else 0.5)
                                             + G.f_oob_rects(ids, rng, G.tiny_model_list([(4, 3), (7, 5)], rng, 3 if q else 30), ifaces=("spi",))),
         ]
@@ -274,7 +278,8 @@ def plan_for(prop, tier, seed):
                   "quick tier, complete in the thorough tier)")
         p.exhaustive = not q
         p.tables = [("madctl", True, "dev", lambda rng: G.t_madctl(rng, seq3_sample=0.02 if q else 1.0))]
-        p.families = [("model-init", True, "dev", lambda ids, rng: G.f_model_init(ids, rng, full=False, after=True))]
+        p.families = [("model-init", True, "dev", lambda ids, rng: G.f_model_init(ids, rng, full=False, after=True)),
+                      ("reorient-own-madctl", True, "dev", lambda ids, rng: G.f_reorient(ids, rng, [("tinybgr565_4x3", 4, 3, rng.sample(list(G.windows(4, 3)), 3 if q else 30))], ifaces=("rec",)))]
     elif prop == "C15":
         p.mc = [("MC_Small", "MC_Small_group", 8, 900, None), ("MC_Small", "MC_Small_angle", 4, 900, None)]
         p.rule = ("table rows = all words of length <= 4 over {rotate 0/90/180/270, flip_horizontal, flip_vertical} from all 8 "
